@@ -481,7 +481,6 @@ func (g *gen) revertTop() {
 
 func (g *gen) selfdestruct() {
 	a := g.anyAddr()
-	ad := g.u.addr(a)
 	if !g.contractLike(a) {
 		g.read()
 		return
